@@ -571,6 +571,9 @@ func (t *ty) String() string {
 	return strings.Join(parts, " | ")
 }
 
+// shortTuple is set by deriveSource when it drew an argument tuple type shorter than the output's.
+var shortTuple bool
+
 var fieldNames = []string{"a", "b", "c", "id", "name", "é"}
 var primIDs = []octosql.TypeID{octosql.TypeIDInt, octosql.TypeIDFloat, octosql.TypeIDBoolean, octosql.TypeIDString, octosql.TypeIDTime, octosql.TypeIDDuration}
 
@@ -636,7 +639,13 @@ func deriveSource(r *lib.Rng, t *ty) *ty {
 		return &ty{kindOf: "list", subs: []*ty{deriveSource(r, t.subs[0])}}
 	case "tuple":
 		s := &ty{kindOf: "tuple"}
-		for i := range t.subs {
+		n := len(t.subs)
+		if r.Chance(1, 3) {
+			// a shorter tuple: TypeSum pads its type with NULL elements, the fixer pads the value
+			n = r.Intn(n)
+			shortTuple = true
+		}
+		for i := 0; i < n; i++ {
 			s.subs = append(s.subs, deriveSource(r, t.subs[i]))
 		}
 		return s
@@ -841,6 +850,7 @@ func main() {
 			target = genTarget(r, 2)
 		}
 		nargs := 1 + r.Intn(4)
+		shortTuple = false
 		var srcs []*ty
 		var exprs []execution.Expression
 		var cargs []string
@@ -909,6 +919,10 @@ func main() {
 		js := map[string]interface{}{"coalesce_target": tgt.String(), "argument_types": ssrcs, "args": jsArgs, "observed": o.json(), "evaluated": count}
 		idx := cf.Add(fmt.Sprintf("CCoalesce %s %s %s %s %d", tgt.coq(), lib.CoqList(csrcs), lib.CoqList(cargs), o.coq(), count), js, nullBefore || composite)
 		cf.Count("coalesce")
+		if shortTuple {
+			cf.Count("coalesce_shorter_tuple")
+			cf.SetClass(idx, "coalesce-tuple-length")
+		}
 		if composite {
 			cf.Count("coalesce_composite")
 		}
